@@ -407,6 +407,70 @@ func runScenario(sc *Scenario) (res *result) {
 
 // ---------- reporting ----------
 
+// raceContext replays the trace up to (excluding) event at and reports whether the
+// violating frame would have been admissible under the peer settings in force just
+// before some SETTINGS ACK that the client sent after its previous frame of the same
+// kind. That is the signature of the client taking credit (awaitFlowControl) or a
+// stream slot (addStreamLocked) under cc.mu, then applying and acknowledging a
+// lowering SETTINGS frame, and only then writing the frame it had prepared.
+func raceContext(log []Event, at int) (o *Oracle, sentMF bool, race bool) {
+	o = NewOracle()
+	if at < 0 || at >= len(log) {
+		return o, false, false
+	}
+	const none = int64(-1 << 62)
+	winBeforeAck := map[uint32]int64{}   // per stream: max window right before an ack since its last DATA/HEADERS
+	frameBeforeAck := map[uint32]int64{} // per stream: max frame limit right before an ack since its last DATA/HEADERS
+	slotsBeforeAck := none               // max free stream slots right before an ack since the last new stream
+	for i := 0; i < at; i++ {
+		e := &log[i]
+		if !e.C && e.Type == ftSettings && !e.has(flagAck) {
+			for _, kv := range e.Settings {
+				if kv[0] == 5 {
+					sentMF = true
+				}
+			}
+		}
+		if e.C && e.Type == ftSettings && e.has(flagAck) {
+			for sid, st := range o.streams {
+				if v, ok := winBeforeAck[sid]; !ok || st.win > v {
+					winBeforeAck[sid] = st.win
+				}
+				if v, ok := frameBeforeAck[sid]; !ok || o.frameLimit() > v {
+					frameBeforeAck[sid] = o.frameLimit()
+				}
+			}
+			free := int64(1 << 40)
+			if lim := o.streamLimit(); lim != unlimited {
+				free = lim - o.openStreams()
+			}
+			if free > slotsBeforeAck {
+				slotsBeforeAck = free
+			}
+		}
+		if e.C && (e.Type == ftData || e.Type == ftHeaders) {
+			if e.Type == ftHeaders && o.streams[e.Sid] == nil {
+				slotsBeforeAck = none
+			}
+			delete(winBeforeAck, e.Sid)
+			delete(frameBeforeAck, e.Sid)
+		}
+		o.Step(e)
+	}
+	e := &log[at]
+	switch {
+	case e.Type == ftData:
+		if v, ok := winBeforeAck[e.Sid]; ok && v >= int64(e.Len) {
+			if f := frameBeforeAck[e.Sid]; f >= int64(e.Len) {
+				race = true
+			}
+		}
+	case e.Type == ftHeaders && o.streams[e.Sid] == nil:
+		race = slotsBeforeAck >= 1
+	}
+	return o, sentMF, race
+}
+
 func shapeOf(res *result, cls int, at int) string {
 	sc := res.sc
 	cmf := optU(sc.FP.setting(5))
@@ -415,36 +479,15 @@ func shapeOf(res *result, cls int, at int) string {
 	if at >= 0 && at < len(res.log) {
 		ev = &res.log[at]
 	}
-	// replay up to the event for context
-	o := NewOracle()
-	for i := 0; i < at && i < len(res.log); i++ {
-		o.Step(&res.log[i])
+	o, sentMF, race := raceContext(res.log, at)
+	if ev == nil {
+		for i := range res.log {
+			o.Step(&res.log[i])
+		}
 	}
 	peerMF := "absent"
-	sentMF := false
-	for i := 0; i < at && i < len(res.log); i++ {
-		if e := &res.log[i]; !e.C && e.Type == ftSettings && !e.has(flagAck) {
-			for _, kv := range e.Settings {
-				if kv[0] == 5 {
-					sentMF = true
-				}
-			}
-		}
-	}
 	if sentMF {
 		peerMF = fmt.Sprint(o.maxFrame)
-	}
-	// number of client frames between the latest SETTINGS ACK and the event: a small
-	// number after a lowering change points at the apply/ack-vs-write race
-	sinceAck := "none"
-	for i, n := at-1, 0; i >= 0 && i < len(res.log); i-- {
-		if e := &res.log[i]; e.C {
-			if e.Type == ftSettings && e.has(flagAck) {
-				sinceAck = fmt.Sprint(n)
-				break
-			}
-			n++
-		}
 	}
 	switch cls {
 	case clsFrameTooLarge:
@@ -453,6 +496,9 @@ func shapeOf(res *result, cls int, at int) string {
 			switch ev.Type {
 			case ftData:
 				ft = "DATA"
+				if race && o.loweredFrame {
+					return "race-write-vs-ack,frame=DATA,lowered=true"
+				}
 			case ftHeaders:
 				ft = "HEADERS"
 				if ev.has(flagPriority) && int64(ev.Len)-5 <= o.frameLimit() {
@@ -462,11 +508,19 @@ func shapeOf(res *result, cls int, at int) string {
 				ft = "CONTINUATION"
 			}
 		}
-		return fmt.Sprintf("frame=%s,caller-maxframe=%s,peer-maxframe=%s,lowered=%v,since-ack=%s", ft, cmf, peerMF, o.loweredFrame, sinceAck)
-	case clsStreamWindow, clsConnWindow:
-		return fmt.Sprintf("peer-lowered-initwin=%v,negative-window-before=%v,since-ack=%s", o.loweredInitWin, o.negWindowSeen, sinceAck)
+		return fmt.Sprintf("frame=%s,caller-maxframe=%s,peer-maxframe=%s,lowered=%v", ft, cmf, peerMF, o.loweredFrame)
+	case clsStreamWindow:
+		if race && o.loweredInitWin {
+			return "race-write-vs-ack,peer-lowered-initwin=true"
+		}
+		return fmt.Sprintf("no-race,peer-lowered-initwin=%v,negative-window-before=%v", o.loweredInitWin, o.negWindowSeen)
+	case clsConnWindow:
+		return fmt.Sprintf("fp=%s,peer-lowered-initwin=%v", sc.FP.Kind, o.loweredInitWin)
 	case clsTooManyStreams:
-		return fmt.Sprintf("strict=%v,peer-lowered-maxstreams=%v,acks=%d,since-ack=%s", sc.Strict, o.loweredStreams, o.ackEvents, sinceAck)
+		if race && o.loweredStreams {
+			return fmt.Sprintf("race-open-vs-ack,strict=%v", sc.Strict)
+		}
+		return fmt.Sprintf("no-race,strict=%v,peer-lowered-maxstreams=%v", sc.Strict, o.loweredStreams)
 	case clsStreamStalled:
 		return fmt.Sprintf("caller-initwin=%s", ciw)
 	case clsClientKilledConn, clsConnDropped, clsConnCredit:
